@@ -336,6 +336,13 @@ const smtPrelude = `(set-option :produce-models true)
 (declare-fun j.marshal (JsonV) Bytes)
 (declare-fun j.ok (Bytes) Bool)
 (declare-const JNULL JsonV)
+(declare-fun xmap (Bytes) (Array Str Bytes))
+(declare-fun xmapnil (Bytes) Bool)
+(declare-fun xok (Bytes) Bool)
+(declare-fun xmarshal ((Array Str Bytes) Bool) Bytes)
+(assert (= (xmap NULLB) ((as const (Array Str Bytes)) NOX)))
+(declare-fun m.len.b ((Array Str Bytes)) Int)
+(assert (= (m.len.b ((as const (Array Str Bytes)) NOX)) 0))
 (define-fun absexp ((e Int) (n Int)) Int (ite (and (> e 0) (<= e 2592000)) (+ e n) e))
 `
 
@@ -345,3 +352,13 @@ func smtDecl(name string, sort *Sort) string {
 }
 
 func mkT(s string, sort *Sort) Term { return Term{S: s, Sort: sort} }
+
+// canonSort maps a sort name back to the shared *Sort (sorts are compared by pointer).
+func canonSort(name string) *Sort {
+	for _, s := range []*Sort{SInt, SBool, SStr, SBytes, SJson, SRow, SDocId, SDocs, SXMap, SJMap, SSSet, SColls, SEvent, SISet, SStrSeq} {
+		if s.Name == name {
+			return s
+		}
+	}
+	return &Sort{name}
+}
